@@ -14,6 +14,9 @@
 (*                                                                         *)
 (* Each call is stepped with Lifecycle!Call; the judgement of a step:      *)
 (*   caller array modified                     -> fail                     *)
+(*   twinSame = FALSE: the same call sequence, run after the same sequence *)
+(*        on a twin object (other material) in the same process, gave      *)
+(*        another outcome / result / derived values   -> fail             *)
 (*   an attribute that is Def after the step holds another value than the  *)
 (*        one the definition determines (vals)  -> fail                    *)
 (*   correct result (ok, = reference, = its repetition) -> ok  (always)    *)
@@ -36,7 +39,7 @@
 EXTENDS Lifecycle, TraceLib
 CONSTANTS Tol, SpreadMult
 VARIABLES l, j, acc
-tvars == <<kind, derived, ckey, n, last, l, j, acc>>
+tvars == <<kind, derived, ckey, defn, n, last, l, j, acc>>
 
 Ev == Trace[l]
 Pair(x) == <<x[1], x[2]>>
@@ -88,6 +91,8 @@ Judge(k, mode, s, prev, o, dAfter) ==
         mk(v, devs, why) == [m |-> s.m, v |-> v, devs |-> devs, why |-> why, spec |-> <<o.out, o.attr>>,
                              drift |-> IF drift THEN driftWhat ELSE <<>>]
     IN IF ~s.argsSame THEN mk("fail", {}, "caller array modified")
+       ELSE IF ~s.twinSame
+       THEN mk("fail", {}, "outcome depends on another object evaluated earlier in the same process")
        ELSE IF mode = "abstract" /\ ~drift /\ BadValues(s, dAfter) # {}
        THEN mk("fail", {}, <<"derived attribute holds a value that depends on the call history", BadValues(s, dAfter)>>)
        ELSE IF Good(s, prev) THEN mk("ok", {}, "")
@@ -118,22 +123,23 @@ Overall(a, mode) ==
        ELSE "ok"
 
 TInit == /\ l = 1 /\ j = 0 /\ acc = <<>>
-         /\ kind = "Plate" /\ derived = InitDerived(kind) /\ ckey = InitKey(kind) /\ n = 0 /\ last = NoCall
+         /\ kind = "Plate" /\ derived = InitDerived(kind) /\ ckey = InitKey(kind) /\ defn = {} /\ n = 0
+         /\ last = NoCall
 Begin == /\ l <= Len(Trace) /\ j = 0
          /\ kind' = Ev.kind
-         /\ derived' = InitDerived(kind') /\ ckey' = InitKey(kind') /\ last' = NoCall
+         /\ derived' = InitDerived(kind') /\ ckey' = InitKey(kind') /\ defn' = {} /\ last' = NoCall
          /\ j' = 1 /\ acc' = <<>> /\ UNCHANGED <<l, n>>
 Step == /\ l <= Len(Trace) /\ j >= 1 /\ j <= Len(Ev.steps)
         /\ LET s == Ev.steps[j]
                prev == IF j > 1 THEN Ev.steps[j-1] ELSE s
-               o == Exec(kind, s.m, derived, ckey)
+               o == Exec(kind, s.m, derived, ckey, defn)
                repaired == s.out = "ok" /\ o.out = "fails" /\ Pseudo(kind, o.attr)
            IN /\ IF repaired THEN CallRepaired(s.m) ELSE Call(s.m)
               /\ acc' = Append(acc, Judge(kind, Ev.mode, s, prev, AsState(last'), derived'))
         /\ j' = j + 1 /\ UNCHANGED <<l, n>>
 End == /\ l <= Len(Trace) /\ j = Len(Ev.steps) + 1
        /\ Verdict(Ev.id, Overall(acc, Ev.mode), acc)
-       /\ l' = l + 1 /\ j' = 0 /\ UNCHANGED <<kind, derived, ckey, n, last, acc>>
+       /\ l' = l + 1 /\ j' = 0 /\ UNCHANGED <<kind, derived, ckey, defn, n, last, acc>>
 TNext == Begin \/ Step \/ End
 TSpec == TInit /\ [][TNext]_tvars
 
